@@ -90,7 +90,7 @@ KINDS = ["inline", "inline", "rel", "rel", "abs", "missing", "unreadable", "badb
 
 
 def cases(O):
-    n = 500 if O.tier == "quick" else 3000
+    n = 500 if O.tier == "quick" else 9000
     import jsgen, catalogue
     cs = []
     for i in range(n):
